@@ -94,6 +94,135 @@ theorem decision_expand (b : List Str) (ps : List Policy) (req : Request) :
   unfold decision
   simp only [enforced_expand, List.any_map, Function.comp_def, policyMatches_expand, List.isEmpty_map]
 
+/-! ## 0. Selection: `ShouldAttachPolicy` / `ListAuthorizationPolicies` = the documented attachment -/
+
+theorem refIs_kind_excl (ref : Str × Str × Str × Str) (g g' k k' : Str) (hk : k ≠ k')
+    (h : refIs ref g k = true) : refIs ref g' k' = false := by
+  unfold refIs at *
+  simp only [Bool.and_eq_true, beq_iff_eq] at h
+  have : (ref.2.1 == k') = false := by
+    rw [Bool.eq_false_iff]; intro e; rw [beq_iff_eq] at e; exact hk (h.2.symm.trans e)
+  rw [this, Bool.and_false]
+
+/-- One targetRef: the loop body of `ShouldAttachPolicy` returns `true` exactly when the reference
+    designates the workload in the sense of the API documentation. -/
+theorem refAttaches_eq_designates (w : Workload) (gw : Str) (p : Policy) (ref : Str × Str × Str × Str)
+    (hl : lookupLabel gatewayNameLabel w.labels = some gw) :
+    refAttaches w gw p ref = refDesignates w p ref := by
+  unfold refAttaches refDesignates
+  rw [hl]
+  cases hG : refIs ref gatewayGroup "Gateway".toList with
+  | true =>
+    rw [refIs_kind_excl ref _ [] _ "Service".toList (by decide) hG,
+      refIs_kind_excl ref _ istioNetworkingGroup _ "ServiceEntry".toList (by decide) hG,
+      refIs_kind_excl ref _ gatewayGroup _ "GatewayClass".toList (by decide) hG]
+    simp only [Bool.and_false, Bool.false_and, Bool.false_or, if_true, Bool.true_and]
+    generalize (ref.2.2.2.isEmpty || ref.2.2.2 == w.ns) = A
+    by_cases h1 : w.ns = p.ns
+    · by_cases h3 : ref.2.2.1 = gw
+      · subst h3; cases A <;> simp [h1]
+      · have : ¬ gw = ref.2.2.1 := fun e => h3 e.symm
+        have e1 : (ref.2.2.1 == gw) = false := by simpa using h3
+        have e2 : (gw == ref.2.2.1) = false := by simpa using this
+        cases A <;> simp [h1, e1, e2]
+    · have : ¬ p.ns = w.ns := fun e => h1 e.symm
+      cases A <;> simp [h1, this]
+  | false =>
+    simp only [Bool.false_eq_true, if_false, Bool.false_and, Bool.and_false, Bool.or_false]
+    have hlast : (if (w.ns != p.ns) = true then false
+        else if (!(ref.2.2.2.isEmpty || ref.2.2.2 == w.ns)) = true then false else false) = false := by
+      split
+      · rfl
+      · split <;> rfl
+    rw [hlast, Bool.or_false]
+    cases hC : refIs ref gatewayGroup "GatewayClass".toList with
+    | true =>
+      rw [refIs_kind_excl ref _ [] _ "Service".toList (by decide) hC,
+        refIs_kind_excl ref _ istioNetworkingGroup _ "ServiceEntry".toList (by decide) hC]
+      simp only [Bool.and_false, Bool.false_and, Bool.false_or, if_true, Bool.and_true]
+      cases (p.ns == w.rootNs) <;> cases w.waypoint <;> cases (ref.2.2.1 == waypointClassName) <;> rfl
+    | false =>
+      simp only [Bool.false_eq_true, if_false, Bool.and_false, Bool.false_and, Bool.or_false]
+      cases hS : refIs ref [] "Service".toList with
+      | true =>
+        rw [refIs_kind_excl ref _ istioNetworkingGroup _ "ServiceEntry".toList (by decide) hS]
+        simp only [Bool.and_false, Bool.false_and, Bool.or_false, if_true, Bool.and_true]
+        congr 1
+        cases w.service with
+        | none => rfl
+        | some s =>
+          simp only [Option.any_some]
+          rw [Bool.eq_iff_iff]
+          simp only [Bool.and_eq_true, beq_iff_eq]
+          constructor
+          · rintro ⟨⟨h1, h2⟩, h3⟩; exact ⟨⟨h3, h1.symm⟩, h2.symm⟩
+          · rintro ⟨⟨h3, h1⟩, h2⟩; exact ⟨⟨h1.symm, h2.symm⟩, h3⟩
+      | false =>
+        simp only [Bool.false_eq_true, if_false, Bool.and_false, Bool.false_and, Bool.false_or]
+        cases hE : refIs ref istioNetworkingGroup "ServiceEntry".toList with
+        | true =>
+          simp only [if_true, Bool.and_true]
+          congr 1
+          cases w.service with
+          | none => rfl
+          | some s =>
+            simp only [Option.any_some]
+            rw [Bool.eq_iff_iff]
+            simp only [Bool.and_eq_true, beq_iff_eq, Bool.not_eq_true']
+            constructor
+            · rintro ⟨⟨h1, h2⟩, h3⟩; exact ⟨⟨h3, h1.symm⟩, h2.symm⟩
+            · rintro ⟨⟨h3, h1⟩, h2⟩; exact ⟨⟨h1.symm, h2.symm⟩, h3⟩
+        | false => simp
+
+/-- `ShouldAttachPolicy` = the documented attachment rule (second factor of `applies`). -/
+theorem shouldAttach_eq (w : Workload) (p : Policy) :
+    shouldAttach w p =
+      (if p.refs.isEmpty then
+         selectorMatches w p && (!isGatewayAPI w || (!w.waypoint && w.selectorGatewayPolicy))
+       else isGatewayAPI w && p.refs.any (refDesignates w p)) := by
+  unfold shouldAttach isGatewayAPI selectorMatches
+  cases hl : lookupLabel gatewayNameLabel w.labels with
+  | none =>
+    simp only [Option.isSome_none, Bool.not_false, Bool.true_or, Bool.and_true, Bool.false_and]
+    cases p.refs.isEmpty <;> simp
+  | some gw =>
+    simp only [Option.isSome_some, Bool.not_true, Bool.false_or, Bool.true_and]
+    cases hr : p.refs.isEmpty with
+    | true =>
+      simp only [if_true]
+      cases w.waypoint <;> cases w.selectorGatewayPolicy <;> simp
+    | false =>
+      simp only [Bool.false_eq_true, if_false]
+      apply any_congr_mem
+      intro ref _
+      exact refAttaches_eq_designates w gw p ref hl
+
+theorem lookupNamespaces_contains (w : Workload) (p : Policy) :
+    (lookupNamespaces w).contains p.ns = nsInScope w p := by
+  unfold lookupNamespaces nsInScope
+  cases w.service with
+  | none =>
+    simp only [Option.map_none, Option.toList_none, List.append_nil, Option.any_none, Bool.or_false]
+    rw [Bool.eq_iff_iff]
+    simp only [List.contains_eq_mem, List.mem_cons, List.not_mem_nil, or_false, decide_eq_true_eq,
+      Bool.or_eq_true, beq_iff_eq]
+  | some s =>
+    simp only [Option.map_some, Option.toList_some, Option.any_some]
+    rw [Bool.eq_iff_iff]
+    simp only [List.contains_eq_mem, List.mem_append, List.mem_cons, List.not_mem_nil, or_false,
+      decide_eq_true_eq, Bool.or_eq_true, beq_iff_eq]
+
+/-- **Selection.** The policies `GetAuthorizationPolicies` / `ListAuthorizationPolicies` /
+    `ShouldAttachPolicy` hand to the builder are exactly the policies that apply to the workload by
+    the API documentation (`Spec.applies`, written independently of the code's control flow). -/
+theorem selectPolicies_eq_applies (w : Workload) (ps : List Policy) :
+    selectPolicies w ps = ps.filter (applies w) := by
+  unfold selectPolicies
+  apply List.filter_congr
+  intro p _
+  unfold applies
+  rw [lookupNamespaces_contains, shouldAttach_eq]
+
 /-- **Compiler correctness.** For the policies that apply, whenever nothing is untranslatable on
     the listener, the generated filter chain admits a request iff the policy semantics do:
     rejected if some DENY policy matches, otherwise admitted iff there is no ALLOW policy or some
@@ -117,8 +246,10 @@ theorem compile_correct_selected (o : BuildOpts) (ps : List Policy) (req : Reque
 theorem compile_correct_http (w : Workload) (o : BuildOpts) (ps : List Policy) (req : Request)
     (_hhttp : o.forTCP = false)
     (h : Hyps o (selectPolicies w ps) req) (htr : Translatable o (selectPolicies w ps)) :
-    evalFilters (compile w o ps) req = specDecision w o.bundle ps req :=
-  compile_correct_selected o (selectPolicies w ps) req h htr
+    evalFilters (compile w o ps) req = specDecision w o.bundle ps req := by
+  unfold specDecision
+  rw [← selectPolicies_eq_applies]
+  exact compile_correct_selected o (selectPolicies w ps) req h htr
 
 /-- **Never more permissive** (any listener, nothing assumed translatable): a request the generated
     filters admit is admitted by the policy semantics. Untranslatable ALLOW rules are dropped,
@@ -160,8 +291,10 @@ theorem compile_sound_selected (o : BuildOpts) (ps : List Policy) (req : Request
     the policy, pointwise on requests. -/
 theorem compile_failclosed (w : Workload) (o : BuildOpts) (ps : List Policy) (req : Request)
     (h : Hyps o (selectPolicies w ps) req)
-    (hc : evalFilters (compile w o ps) req = true) : specDecision w o.bundle ps req = true :=
-  compile_sound_selected o (selectPolicies w ps) req h hc
+    (hc : evalFilters (compile w o ps) req = true) : specDecision w o.bundle ps req = true := by
+  unfold specDecision
+  rw [← selectPolicies_eq_applies]
+  exact compile_sound_selected o (selectPolicies w ps) req h hc
 
 theorem compile_failclosed_tcp (w : Workload) (o : BuildOpts) (ps : List Policy) (req : Request)
     (_htcp : o.forTCP = true) (h : Hyps o (selectPolicies w ps) req)
@@ -201,6 +334,13 @@ theorem evalVal_stringOr_strs (vs : List Str) (l : List Str) :
   intro v _
   simp [evalVal]
 
+theorem evalVal_stringOr_other (vs : List Str) :
+    evalVal (stringOrMatcher vs) .other = false := by
+  unfold stringOrMatcher
+  rw [evalVal_orMatcher, List.any_map, List.any_eq_false]
+  intro v _
+  simp [evalVal]
+
 theorem any_any_comm {α β : Type} (l : List α) (m : List β) (f : α → β → Bool) :
     l.any (fun a => m.any (fun b => f a b)) = m.any (fun b => l.any (fun a => f a b)) := by
   rw [Bool.eq_iff_iff]
@@ -225,6 +365,8 @@ theorem eval_jwtClaimsList (claims vs : List Str) (req : Request) :
       simp only [evalVal, evalValAny, evalVal_stringOr_strs, Bool.or_false, mvalForm,
         evalVal_stringOr_str]
       exact any_any_comm l vs (fun s v => strForm v s)
+    | other =>
+      simp [evalVal, evalValAny, evalVal_stringOr_other, mvalForm]
 
 /-- `request.auth.audiences`, `request.auth.presenter`, `request.auth.claims[..]`: the aggregated
     metadata matcher means OR over the values, for string and list claims. -/
@@ -255,8 +397,8 @@ theorem matcher_correct_jwt_claims (g : Gen) (key : Str) (vs : List Str) (tcp : 
 theorem evalVal_envoyFilterValue (v : Str) (x : MVal) :
     evalVal (envoyFilterValue v) x =
       if hasPrefix lbr v && hasSuffix rbr v then
-        (match x with | .strs l => l.any (strForm (trimSet "[]".toList v)) | .str _ => false)
-      else (match x with | .str s => strForm v s | .strs _ => false) := by
+        (match x with | .strs l => l.any (strForm (trimSet "[]".toList v)) | _ => false)
+      else (match x with | .str s => strForm v s | _ => false) := by
   unfold envoyFilterValue
   split
   · cases x with
@@ -266,9 +408,11 @@ theorem evalVal_envoyFilterValue (v : Str) (x : MVal) :
       apply any_congr_mem
       intro s _
       exact evalVal_str_str _ s
+    | other => simp [evalVal]
   · cases x with
     | str s => exact evalVal_str_str v s
     | strs l => simp [evalVal]
+    | other => simp [evalVal]
 
 /-- `experimental.envoy.filters.*[key]`: string or `[list]` values against dynamic metadata. -/
 theorem matcher_correct_envoy_filter (key : Str) (vs : List Str) (tcp : Bool) (req : Request) :
@@ -552,12 +696,14 @@ theorem eval_requestPrincipalOne (v : Str) (req : Request) (hjwt : req.jwtOK = t
   | some x =>
     cases x with
     | strs l => simp
+    | other => simp
     | str i =>
       cases hs : claim req ["sub".toList] with
       | none => simp
       | some y =>
         cases y with
         | strs l => simp
+        | other => simp
         | str s =>
           simp only [hi, hs, Bool.and_eq_true, Bool.not_eq_true', List.isEmpty_eq_false_iff,
             List.contains_eq_mem, decide_eq_false_iff_not] at hjwt hv
@@ -1481,7 +1627,7 @@ theorem extScope_cases (g : Gen) (h : g.extInScope = true) :
   cases g <;> simp [Gen.extInScope] at h <;> simp
 
 theorem ruleExact_of_scope (o : BuildOpts) (req : Request) (pns : Str) (r : Rule)
-    (hs : ruleInScope o req pns r = true) (hr : req.peerOK = true) : RuleExact o req pns r := by
+    (hs : ruleInScope o req pns r = true) : RuleExact o req pns r := by
   intro m hm rl hrl mr hmr
   unfold ruleInScope at hs
   simp only [hm, List.all_eq_true] at hs
@@ -1500,7 +1646,7 @@ theorem ruleExact_of_scope (o : BuildOpts) (req : Request) (pns : Str) (r : Rule
   simp only [hrp, if_false, Bool.and_eq_true, Bool.or_eq_true, Bool.not_eq_true', List.all_eq_true] at h
   constructor
   · intro _ v hv
-    exact matcher_correct_principals mr.g mr.key v o.forTCP o.useAuth req (h.2 v hv) hr
+    exact matcher_correct_principals mr.g mr.key v o.forTCP o.useAuth req (h.2 v hv)
   · intro hext
     rcases h.1 with h1 | h1
     · rw [h1] at hext; cases hext
@@ -1544,9 +1690,9 @@ theorem entriesDistinct_of_B (o : BuildOpts) (ps : List Policy) (h : entriesDist
 theorem hyps_of_B (o : BuildOpts) (ps : List Policy) (req : Request) (h : hypsB o ps req = true) :
     Hyps o ps req := by
   simp only [hypsB, Bool.and_eq_true, List.all_eq_true] at h
-  obtain ⟨⟨h1, h2⟩, h3⟩ := h
+  obtain ⟨h1, h3⟩ := h
   exact { mig := fun p hp r hr => migrationSem_of_B o req p.ns r (h1 p hp r hr).1
-          exact := fun p hp r hr => ruleExact_of_scope o req p.ns r (h1 p hp r hr).2 h2
+          exact := fun p hp r hr => ruleExact_of_scope o req p.ns r (h1 p hp r hr).2
           names := entriesDistinct_of_B o ps h3 }
 
 theorem translatable_of_B (o : BuildOpts) (ps : List Policy) (h : translatableB o ps = true) :
@@ -1620,6 +1766,54 @@ theorem eval_log_filter (o : BuildOpts) (req : Request) (ps : List Policy) :
     · simp only [hany, if_true]; rfl
     · have hany' : ps.any (fun p => !p.dryRun) = false := by simpa using hany
       simp only [hany', Bool.false_eq_true, if_false]
+
+/-! What the order means.  Envoy runs the filters of a chain in order and stops at the first one that
+rejects; the DECISION is the conjunction and does not depend on the order (`decision_order_independent`),
+so the order AUDIT, DENY, ALLOW (and CUSTOM before them, `compileAll`) is a structural property of
+the output - tied by the structural differential - whose only semantic content is WHICH filter
+answers: a request that an enforced DENY policy matches is rejected by the DENY filter, the ALLOW
+filter is never consulted for it (`deny_short_circuits`). -/
+
+/-- The filter that rejects the request: the first one, in chain order, that does not let it pass. -/
+def rejectedBy (fs : List Filter) (req : Request) : Option Filter := fs.find? (fun f => !evalFilter f req)
+
+theorem rejectedBy_none_iff (fs : List Filter) (req : Request) :
+    rejectedBy fs req = none ↔ evalFilters fs req = true := by
+  unfold rejectedBy evalFilters
+  simp [List.find?_eq_none, List.all_eq_true]
+
+/-- The decision of a chain does not depend on the order of its filters. -/
+theorem decision_order_independent (a b : List Filter) (req : Request) :
+    evalFilters (a ++ b) req = evalFilters (b ++ a) req := by
+  simp only [evalFilters, List.all_append]
+  exact Bool.and_comm _ _
+
+/-- `filter_order`, semantic half: when the DENY filter rejects the request (i.e. an enforced DENY
+    policy's generated rules match), it is the DENY filter that answers - the AUDIT filter before it
+    never rejects and the ALLOW filter after it is not reached. -/
+theorem deny_short_circuits (o : BuildOpts) (ps : List Policy) (req : Request)
+    (h : evalFilters (optFilter o.shapeTCP (buildAction o .deny (ps.filter (·.action == .deny)))) req = false) :
+    (rejectedBy (compileSelected o ps) req).map Filter.action = some (some .deny) := by
+  unfold compileSelected rejectedBy
+  have hlog := eval_log_filter o req (ps.filter (·.action == .audit))
+  have hl : (optFilter o.shapeTCP (buildAction o .log (ps.filter (·.action == .audit)))).find?
+      (fun f => !evalFilter f req) = none := (rejectedBy_none_iff _ req).2 hlog
+  rw [List.append_assoc, List.find?_append, hl, Option.none_or, List.find?_append]
+  have hact := buildAction_action o .deny (ps.filter (·.action == .deny))
+  cases hb : optFilter o.shapeTCP (buildAction o .deny (ps.filter (·.action == .deny))) with
+  | nil => rw [hb] at h; simp [evalFilters] at h
+  | cons f t =>
+    rw [hb] at h hact
+    cases t with
+    | cons g t' =>
+      split at hact <;> simp at hact
+    | nil =>
+      simp only [evalFilters, List.all_cons, List.all_nil, Bool.and_true] at h
+      simp only [List.find?_cons, h, Bool.not_false, List.find?_nil, Option.some_or, Option.map_some]
+      split at hact
+      · simp at hact
+      · simp only [List.map_cons, List.map_nil, List.cons.injEq, and_true] at hact
+        rw [hact]
 
 /-- `filter_order`, second half: AUDIT policies never change the decision. -/
 theorem audit_never_changes_decision (o : BuildOpts) (ps : List Policy) (req : Request) :
@@ -2230,7 +2424,7 @@ theorem compile_all_correct_http (w : Workload) (o : BuildOpts) (c : CustomOpts)
     evalGs (compileAll w o c ps) req = specDecisionAll w o.bundle c ps req := by
   unfold compileAll specDecisionAll
   rw [evalGs_append, evalGs_rbac]
-  have hsel : ps.filter (applies w) = selectPolicies w ps := rfl
+  have hsel : ps.filter (applies w) = selectPolicies w ps := (selectPolicies_eq_applies w ps).symm
   rw [hsel, custom_correct_selected o c _ req h htr hnd]
   congr 1
   exact compile_correct_selected o (selectPolicies w ps) req h htr
@@ -2243,7 +2437,7 @@ theorem compile_all_failclosed (w : Workload) (o : BuildOpts) (c : CustomOpts) (
   unfold compileAll at hc
   unfold specDecisionAll
   rw [evalGs_append, evalGs_rbac, Bool.and_eq_true] at hc
-  have hsel : ps.filter (applies w) = selectPolicies w ps := rfl
+  have hsel : ps.filter (applies w) = selectPolicies w ps := (selectPolicies_eq_applies w ps).symm
   rw [hsel, custom_sound_selected o c _ req h hnd hc.1]
   exact compile_sound_selected o (selectPolicies w ps) req h hc.2
 
@@ -2321,6 +2515,17 @@ theorem alias_prefix_value_literal :
       (evalGs (compileAll exWl aliasOpts { providers := [], multi := false } [aliasPolicy "cluster.local/ns/foo/*"]) (aliasReq td),
        specDecisionOn exWl aliasOpts.bundle { providers := [], multi := false } false [aliasPolicy "cluster.local/ns/foo/*"] (aliasReq td)))
       = [(false, false), (true, true)] := by decide
+
+/-- A `when` key that names no attribute (rejected by validation): the rule is lost under every
+    action, in the statement and in the compiled filters alike - a DENY policy consisting of such a
+    rule denies nothing. -/
+theorem unknown_key_rule_lost :
+    let p : Policy := { ns := "foo".toList, name := "p".toList, action := .deny,
+                        rules := [ { whens := [ ⟨"unknown.key".toList, ["x".toList], []⟩ ] } ] }
+    classify p.ns "unknown.key".toList = none ∧
+    evalGs (compileAll exWl exOpts { providers := [], multi := false } [p]) (aliasReq "cluster.local") = true ∧
+    specDecisionOn exWl exOpts.bundle { providers := [], multi := false } false [p] (aliasReq "cluster.local") = true := by
+  decide
 
 /-- All hypotheses incl. the CUSTOM part, as one computable check. -/
 theorem customEntriesDistinct_of_B (o : BuildOpts) (ps : List Policy) (h : customEntriesDistinctB o ps = true) :
